@@ -1,0 +1,162 @@
+//go:build verif
+
+package sorted_set
+
+// Machine-checked contracts for the gowp verifier (/verif). Comment-only; compiled only under the
+// build tag "verif"; declares nothing.
+//
+// Abstract view of a *SortedSet s: the finite map { v -> s.members[v].Score | has(s.members, v) }.
+
+//@ type SortedSet
+//@   invariant alloc: this.members != nil
+//@   invariant exists: forall v Value :: has(this.members, v) ==> this.members[v].Exists && this.members[v].Value == v
+
+//@ func (*SortedSet).Contains noalloc props C17
+//@   preserves exists
+//@   ensures result == has(set.members, m)
+//@   modifies nothing
+
+//@ func (*SortedSet).Get noalloc props C17
+//@   ensures result == set.members[v]
+//@   modifies nothing
+
+//@ func (*SortedSet).Remove noalloc props C17
+//@   preserves alloc, exists
+//@   ensures removed: !has(set.members, v) && result == old(has(set.members, v))
+//@   ensures others: forall x Value :: x != v ==> (has(set.members, x) <==> old(has(set.members, x))) && set.members[x] == old(set.members[x])
+//@   modifies set.members[*]
+
+//@ func NewSortedSet props C17,C13
+//@   ensures isfresh: fresh(result) && fresh(result.members)
+//@   ensures wf: inv(result, alloc) && inv(result, exists)
+//@   ensures domain: forall v Value :: has(result.members, v) <==> (exists i int :: 0 <= i && i < len(members) && members[i].Value == v)
+//@   ensures scores: forall v Value :: has(result.members, v) ==> (exists i int :: 0 <= i && i < len(members) && members[i].Value == v && members[i].Score == result.members[v].Score)
+//@   ensures exact: (forall i int, j int :: 0 <= i && i < j && j < len(members) ==> members[i].Value != members[j].Value) ==> (forall i int :: 0 <= i && i < len(members) ==> result.members[members[i].Value].Score == members[i].Score)
+//@   modifies nothing
+//@   loop 0
+//@     invariant (forall i int, j int :: 0 <= i && i < j && j < len(members) ==> members[i].Value != members[j].Value) ==> (forall i int :: 0 <= i && i <= rangeindex ==> s.members[members[i].Value].Score == members[i].Score)
+//@     invariant -1 <= rangeindex && rangeindex < len(members) && fresh(s) && fresh(s.members) && inv(s, alloc) && inv(s, exists)
+//@     invariant forall v Value :: has(s.members, v) <==> (exists i int :: 0 <= i && i <= rangeindex && members[i].Value == v)
+//@     invariant forall v Value :: has(s.members, v) ==> (exists i int :: 0 <= i && i <= rangeindex && members[i].Value == v && members[i].Score == s.members[v].Score)
+
+//@ func (*SortedSet).GetAll props C17,C13
+//@   preserves exists
+//@   ensures complete: forall v Value :: has(set.members, v) <==> (exists i int :: 0 <= i && i < len(result) && result[i].Value == v)
+//@   ensures scores: forall i int :: 0 <= i && i < len(result) ==> has(set.members, result[i].Value) && result[i].Score == set.members[result[i].Value].Score
+//@   ensures distinct: forall i int, j int :: 0 <= i && i < j && j < len(result) ==> result[i].Value != result[j].Value
+//@   ensures count: len(result) == len(set.members)
+//@   ensures isfresh: result == nil || fresh(result)
+//@   modifies nothing
+//@   loop 0
+//@     invariant forall v Value :: seen(v) <==> (exists i int :: 0 <= i && i < len(res) && res[i].Value == v)
+//@     invariant forall i int :: 0 <= i && i < len(res) ==> has(set.members, res[i].Value) && res[i].Score == set.members[res[i].Value].Score
+//@     invariant forall i int, j int :: 0 <= i && i < j && j < len(res) ==> res[i].Value != res[j].Value
+//@     invariant len(res) == seencount() && (res == nil || fresh(res))
+
+//@ func (*SortedSet).Cardinality props C17
+//@   preserves exists
+//@   ensures result == len(set.members)
+//@   modifies nothing
+
+//@ func (*SortedSet).Subtract props C17,C13
+//@   preserves alloc, exists
+//@   requires forall i int :: 0 <= i && i < len(others) ==> others[i] != nil && inv(others[i], exists)
+//@   ensures isfresh: fresh(result) && fresh(result.members)
+//@   ensures wf: inv(result, alloc) && inv(result, exists)
+//@   ensures subset: forall v Value :: has(result.members, v) ==> has(set.members, v) && result.members[v].Score == set.members[v].Score
+//@   modifies nothing
+//@   loop 0
+//@     invariant -1 <= rangeindex && rangeindex < len(others) && fresh(res) && fresh(res.members) && inv(res, alloc) && inv(res, exists)
+//@     invariant forall v Value :: has(res.members, v) ==> has(set.members, v) && res.members[v].Score == set.members[v].Score
+//@   loop 1
+//@     invariant fresh(res) && fresh(res.members) && inv(res, alloc) && inv(res, exists) && 0 <= rangeindex + 1
+//@     invariant forall v Value :: has(res.members, v) ==> has(set.members, v) && res.members[v].Score == set.members[v].Score
+
+// ---- union / intersection ----------------------------------------------------------------------
+
+//@ spec opswf(ps []SortedSetParam) bool = forall i int :: 0 <= i && i < len(ps) ==> ps[i].Set != nil && inv(ps[i].Set, alloc) && inv(ps[i].Set, exists)
+
+//@ func Union props C17,C13
+//@   requires opswf(setParams)
+//@   ensures isfresh: fresh(result) && fresh(result.members)
+//@   ensures wf: inv(result, alloc) && inv(result, exists)
+//@   ensures {C17} single: len(setParams) == 1 ==> (forall v Value :: has(result.members, v) <==> has(setParams[0].Set.members, v))
+//@   ensures {C17} weight1: len(setParams) == 1 ==> (forall v Value :: has(result.members, v) ==> result.members[v].Score == setParams[0].Set.members[v].Score * float64(setParams[0].Weight))
+//@   ensures {C17} none: len(setParams) == 0 ==> (forall v Value :: !has(result.members, v))
+//@   modifies nothing
+//@   loop 0
+//@     invariant -1 <= rangeindex && rangeindex < len(rangeslice) && (params == nil || fresh(params)) && len(params) == rangeindex + 1 && disjointarr(params, rangeslice)
+//@     invariant forall i int :: 0 <= i && i < len(params) ==> params[i].Value == rangeslice[i].Value && params[i].Score == rangeslice[i].Score * float64(setParams[0].Weight)
+//@   loop 1
+//@     invariant params == nil || fresh(params)
+//@   loop 2
+//@     invariant params == nil || fresh(params)
+//@   loop 3
+//@     invariant params == nil || fresh(params)
+//@   loop 4
+//@     invariant params == nil || fresh(params)
+
+//@ func Intersect props C17,C13
+//@   requires opswf(setParams)
+//@   ensures isfresh: fresh(result) && fresh(result.members)
+//@   ensures wf: inv(result, alloc) && inv(result, exists)
+//@   ensures {C17} single: len(setParams) == 1 ==> (forall v Value :: has(result.members, v) <==> has(setParams[0].Set.members, v))
+//@   ensures {C17} weight1: len(setParams) == 1 ==> (forall v Value :: has(result.members, v) ==> result.members[v].Score == setParams[0].Set.members[v].Score * float64(setParams[0].Weight))
+//@   ensures {C17} none: len(setParams) == 0 ==> (forall v Value :: !has(result.members, v))
+//@   modifies nothing
+//@   loop 0
+//@     invariant -1 <= rangeindex && rangeindex < len(rangeslice) && (params == nil || fresh(params)) && len(params) == rangeindex + 1 && disjointarr(params, rangeslice)
+//@     invariant forall i int :: 0 <= i && i < len(params) ==> params[i].Value == rangeslice[i].Value && params[i].Score == rangeslice[i].Score * float64(setParams[0].Weight)
+//@   loop 1
+//@     invariant params == nil || fresh(params)
+//@   loop 2
+//@     invariant params == nil || fresh(params)
+
+// ---- scores and ZADD ---------------------------------------------------------------------------
+
+//@ func compareScores noalloc props C17
+//@   ensures lt: lower(comp) == "lt" ==> result == (new < old ? new : old)
+//@   ensures gt: lower(comp) == "gt" ==> result == (new > old ? new : old)
+//@   ensures dflt: lower(comp) != "lt" && lower(comp) != "gt" ==> result == new
+//@   modifies nothing
+
+//@ func validateUpdatePolicy props C17
+//@   ensures updatePolicy == nil ==> result0 == "" && result1 == nil
+//@   ensures result1 == nil && updatePolicy != nil ==> isstr(updatePolicy) && result0 == asstr(updatePolicy) && (lower(result0) == "nx" || lower(result0) == "xx")
+//@   modifies nothing
+
+//@ func validateComparison props C17
+//@   ensures comparison == nil ==> result0 == "" && result1 == nil
+//@   ensures result1 == nil && comparison != nil ==> isstr(comparison) && result0 == asstr(comparison) && (lower(result0) == "lt" || lower(result0) == "gt")
+//@   modifies nothing
+
+//@ func validateChanged props C17
+//@   ensures changed == nil ==> result0 == "" && result1 == nil
+//@   ensures result1 == nil && changed != nil ==> isstr(changed) && result0 == asstr(changed) && lower(result0) == "ch"
+//@   modifies nothing
+
+//@ func validateIncr props C17
+//@   ensures incr == nil ==> result0 == "" && result1 == nil
+//@   ensures result1 == nil && incr != nil ==> isstr(incr) && result0 == asstr(incr) && lower(result0) == "incr"
+//@   modifies nothing
+
+// ZADD without flags (the form Pop and the set-algebra commands use): every listed member is stored with the score
+// given last for it, nothing else changes.
+//@ func (*SortedSet).AddOrUpdate props C17
+//@   preserves alloc, exists
+//@   ensures {C17} plain-members: updatePolicy == nil && comparison == nil && changed == nil && incr == nil ==> result1 == nil && (forall i int :: 0 <= i && i < len(members) ==> has(set.members, members[i].Value))
+//@   ensures {C17} plain-others: updatePolicy == nil && comparison == nil && changed == nil && incr == nil ==> (forall v Value :: !(exists i int :: 0 <= i && i < len(members) && members[i].Value == v) ==> (has(set.members, v) <==> old(has(set.members, v))) && set.members[v] == old(set.members[v]))
+//@   ensures {C17} plain-last: updatePolicy == nil && comparison == nil && changed == nil && incr == nil && len(members) > 0 ==> set.members[members[len(members)-1].Value].Score == members[len(members)-1].Score
+//@   ensures {C17} nx-keeps: result1 == nil && updatePolicy != nil && lower(asstr(updatePolicy)) == "nx" && incr == nil ==> (forall v Value :: old(has(set.members, v)) ==> has(set.members, v) && set.members[v] == old(set.members[v]))
+//@   ensures {C17} xx-nonew: result1 == nil && updatePolicy != nil && lower(asstr(updatePolicy)) == "xx" && incr == nil ==> (forall v Value :: has(set.members, v) <==> old(has(set.members, v)))
+//@   ensures {C17} failed: result1 != nil && incr == nil ==> (forall v Value :: (has(set.members, v) <==> old(has(set.members, v))) && set.members[v] == old(set.members[v]))
+//@   modifies set.members[*]
+//@   loop 0
+//@     invariant inv(set, alloc) && inv(set, exists) && set.members == old(set.members)
+//@   loop 1
+//@     invariant -1 <= rangeindex && rangeindex < len(members) && inv(set, alloc) && inv(set, exists) && set.members == old(set.members)
+//@     invariant lower(policy) != "nx" && lower(policy) != "xx" ==> (forall i int :: 0 <= i && i <= rangeindex ==> has(set.members, members[i].Value))
+//@     invariant lower(policy) != "nx" && lower(policy) != "xx" && lower(comp) != "lt" && lower(comp) != "gt" && rangeindex >= 0 ==> set.members[members[rangeindex].Value].Score == members[rangeindex].Score
+//@     invariant forall v Value :: !(exists i int :: 0 <= i && i <= rangeindex && members[i].Value == v) ==> (has(set.members, v) <==> old(has(set.members, v))) && set.members[v] == old(set.members[v])
+//@     invariant lower(policy) == "nx" ==> (forall v Value :: old(has(set.members, v)) ==> has(set.members, v) && set.members[v] == old(set.members[v]))
+//@     invariant lower(policy) == "xx" ==> (forall v Value :: has(set.members, v) <==> old(has(set.members, v)))
